@@ -366,6 +366,12 @@ def gateKind : Kind where
           | [.int calls, .int got, .int cached] =>
             if calls == 1 && got == cached && cached == v then none else some "cached-value-served-without-invoking:late-leader"
           | _ => some "cached-value-served-without-invoking:late-leader" }
+    | "emptyresult", [] =>
+      -- V = string, the callback succeeds with "" (never cached: the cache refuses the empty string, Memoize drops
+      -- that refusal): both calls return the value "" without error, and each runs the callback (nothing is cached)
+      let want := [Val.atom "ok", .atom "x", .atom "ok", .atom "x", .int 2]
+      { st := st, model := some want, tags := ["memoize:string-valued:empty-result"], nontrivial := true
+        spec := if l.res == want then none else some "result-is-what-the-execution-produced:empty-string-value" }
     | _, _ => { st := st, bad := some s!"memogate: bad line {l.op}" }
 
 end GoguVerif.Kinds.C17
